@@ -89,13 +89,13 @@ static void expand_case(uint64_t idx, Ctx& c) {
         if (c.verbose) printf("  %-40s -> %s\n", op.str().c_str(), key1 == key0 ? "(same state)" : key1.c_str());
         if (key1 == key0 && w->ref.n.size() == nodes0) { c.count("transitions_selfloop"); continue; }  // state unchanged: keep using this world
         H128 hk = hash128(key1);
+        c.count("transitions_state_changing");
         if (!g_visited.count(hk) && g_seenLocal.insert(hk).second) {
-            c.count("successors_emitted");
             if (g_succ) {
                 if (g_lastLevel) fprintf(g_succ, "%s %c\n", hex128(hk).c_str(), w->anyLiveView() ? 'V' : '-');
                 else fprintf(g_succ, "%s %c %s%s%s\n", hex128(hk).c_str(), w->anyLiveView() ? 'V' : '-', hist.c_str(), hist.empty() ? "" : ";", op.str().c_str());
             }
-        } else c.count("transitions_to_known_state");
+        }
         delete w; w = nullptr;
     }
     delete w;
